@@ -26,11 +26,14 @@ LATTICE_CLASSES = {
 }
 
 
-def int_lattice(rng, kind, maxK=3):
-    """integer lattice of the given class whose minimum-image window is provably small"""
+def int_lattice(rng, kind, maxK=3, left_handed=0.15):
+    """integer lattice of the given class whose minimum-image window is provably small; with probability
+    `left_handed` two rows are swapped (negative determinant: a left-handed but perfectly legitimate cell basis)"""
     while True:
         m = _int_lattice(rng, kind)
         if window_ok(m, maxK):
+            if kind not in ('cubic', 'ortho') and rng.random() < left_handed:
+                m = [m[1], m[0], m[2]]
             return m
 
 
@@ -48,6 +51,9 @@ def _int_lattice(rng, kind):
     if kind == 'hexlike':   # 60/120-degree-like integer cell (a.b = -a^2/2 needs even a)
         a = rng.choice([4, 6, 8])
         return [[a, 0, 0], [-a // 2, a, 0], [0, 0, rng.choice([5, 7, 9])]]   # not exactly hexagonal; skewed ab-plane
+    if kind == 'hex':       # exactly hexagonal (a = b, gamma = 120 deg, c perpendicular) as an integer matrix in a rotated frame:
+        s_, t_ = rng.choice([3, 4, 5]), rng.choice([3, 4, 5])   # a = (s,-s,0), b = (0,s,-s) span the plane x+y+z = 0, c = (t,t,t)
+        return [[s_, -s_, 0], [0, s_, -s_], [t_, t_, t_]]
     if kind == 'tri':       # general triclinic, lower triangular
         a, b, c = rng.choice([5, 6, 7]), rng.choice([5, 6, 8]), rng.choice([6, 7, 9])
         return [[a, 0, 0], [rng.choice([-2, -1, 1, 2]), b, 0], [rng.choice([-2, -1, 1, 2]), rng.choice([-2, -1, 1, 2]), c]]
